@@ -23,7 +23,7 @@ fn expect_axis(kind: Kind, c: f32, size: u32) -> Option<Option<u32>> {
     }
 }
 
-struct TexCase<'a> { w: u32, h: u32, ox: u32, oy: u32, borrowed: bool, parent: &'a Buf2<(u32, u32)>, owned: Option<&'a Texture<Buf2<(u32, u32)>>> }
+struct TexCase<'a> { w: u32, h: u32, ox: u32, oy: u32, borrowed: bool, nested: bool, parent: &'a Buf2<(u32, u32)>, owned: Option<&'a Texture<Buf2<(u32, u32)>>> }
 
 fn sample_one(tc: &TexCase, kind: Kind, rel: bool, u: f32, v: f32, r: &mut Report) {
     let (w, h) = (tc.w, tc.h);
@@ -32,9 +32,9 @@ fn sample_one(tc: &TexCase, kind: Kind, rel: bool, u: f32, v: f32, r: &mut Repor
     let (eu, ev) = match (expect_axis(kind, au, w), expect_axis(kind, av, h)) { (Some(a), Some(b)) => (a, b), _ => return };
     r.eval();
     let run = |r: &mut Report, got: Result<(u32, u32), String>| {
-        let case = obj! {"kind" => format!("{kind:?}"), "rel" => rel, "w" => w, "h" => h, "ox" => tc.ox, "oy" => tc.oy, "borrowed" => tc.borrowed, "u" => fbits(u), "v" => fbits(v)};
+        let case = obj! {"kind" => format!("{kind:?}"), "rel" => rel, "w" => w, "h" => h, "ox" => tc.ox, "oy" => tc.oy, "borrowed" => tc.borrowed, "nested" => tc.nested, "u" => fbits(u), "v" => fbits(v)};
         let cls = |c: f32| if c.is_nan() { "nan" } else if c.is_infinite() { "inf" } else if c < 0.0 && c.fract() == 0.0 { "neg-int" } else if c < 0.0 { "neg" } else if c.fract() == 0.0 { "int" } else { "pos" };
-        let key_tail = format!("{kind:?}|{}|{}x{}@{},{}|u={u:e}|v={v:e}", if rel { "rel" } else { "abs" }, w, h, tc.ox, tc.oy);
+        let key_tail = format!("{kind:?}|{}|{}x{}@{},{}{}|u={u:e}|v={v:e}", if rel { "rel" } else { "abs" }, w, h, tc.ox, tc.oy, if tc.nested { "(nested)" } else { "" });
         match got {
             Err(p) => r.violation(format!("tex-panic|{}|{}|{key_tail}", cls(au), cls(av)), format!("{kind:?} sampler on {w}x{h} texture at ({u:e},{v:e}){} panicked: {p}", if rel { " (relative)" } else { "" }), case),
             Ok((gx, gy)) => {
@@ -57,7 +57,12 @@ fn sample_one(tc: &TexCase, kind: Kind, rel: bool, u: f32, v: f32, r: &mut Repor
         };
         run(r, got);
     }}; }
-    if tc.borrowed {
+    if tc.borrowed && tc.nested {
+        // a sub-rectangle of a sub-rectangle that is narrower than its parent (atlas page -> sprite)
+        let f = if tc.ox >= 1 && tc.oy >= 1 { 1 } else { 0 };
+        let page = tc.parent.slice((f..f + 15, f..f + 15));
+        go!(Texture::from(page.slice((tc.ox - f..tc.ox - f + w, tc.oy - f..tc.oy - f + h))));
+    } else if tc.borrowed {
         go!(Texture::from(tc.parent.slice((tc.ox..tc.ox + w, tc.oy..tc.oy + h))));
     } else if let Some(t) = tc.owned {
         go!(*t);
@@ -83,7 +88,7 @@ fn lattice(maxw: u32) -> Vec<f32> {
 fn replay_case(case: &J, r: &mut Report, parent: &Buf2<(u32, u32)>) {
     let g = |k: &str| case.get(k).and_then(|j| j.as_u64()).unwrap_or(0) as u32;
     let kind = match case.get("kind").and_then(|j| j.as_str()).unwrap_or("") { "Repeat" => Kind::Repeat, "Clamp" => Kind::Clamp, _ => Kind::Once };
-    let tc = TexCase { w: g("w"), h: g("h"), ox: g("ox"), oy: g("oy"), borrowed: case.get("borrowed") == Some(&J::Bool(true)), parent, owned: None };
+    let tc = TexCase { w: g("w"), h: g("h"), ox: g("ox"), oy: g("oy"), borrowed: case.get("borrowed") == Some(&J::Bool(true)), nested: case.get("nested") == Some(&J::Bool(true)), parent, owned: None };
     sample_one(&tc, kind, case.get("rel") == Some(&J::Bool(true)), parse_fbits(case.get("u").unwrap()).unwrap(), parse_fbits(case.get("v").unwrap()).unwrap(), r);
 }
 
@@ -102,28 +107,28 @@ fn main() {
     let n = lat.len() as u64;
     rep.set("axis_lattice_size", n);
     // texture cases: (kind, w, h, offset, borrowed)
-    let mut cases: Vec<(Kind, u32, u32, u32, u32, bool)> = vec![];
+    let mut cases: Vec<(Kind, u32, u32, u32, u32, bool, bool)> = vec![];
     for kind in [Kind::Repeat, Kind::Clamp, Kind::Once] {
         let sizes = if kind == Kind::Repeat { &pot } else { &any };
         for &w in sizes { for &h in sizes {
             if quick && w != h && !(w == sizes[1] || h == sizes[0] || (w, h) == (sizes[3], sizes[2])) { continue; }
-            cases.push((kind, w, h, 0, 0, false));
+            cases.push((kind, w, h, 0, 0, false, false));
             let offs: Vec<(u32, u32)> = if quick { vec![(1, 3), (16 - w, 16 - h)] } else { vec![(0, 0), (1, 3), (16 - w, 16 - h), (16 - w, 0), (7.min(16 - w), 5.min(16 - h))] };
-            for (ox, oy) in offs { cases.push((kind, w, h, ox.min(16 - w), oy.min(16 - h), true)); }
+            for (ox, oy) in offs { let (ox, oy) = (ox.min(16 - w), oy.min(16 - h)); cases.push((kind, w, h, ox, oy, true, false)); if (ox >= 1 && oy >= 1) || (ox + w <= 15 && oy + h <= 15) { cases.push((kind, w, h, ox, oy, true, true)); } }
         }}
     }
     // scale sentinels: sizes beyond 255 (repeat: powers of two; clamp/once: arbitrary); owned only (parent is 16x16)
-    for (kind, w, h) in [(Kind::Repeat, 256u32, 2u32), (Kind::Repeat, 2, 1024), (Kind::Repeat, 512, 512), (Kind::Clamp, 300, 2), (Kind::Clamp, 3, 257), (Kind::Once, 300, 3)] { cases.push((kind, w, h, 0, 0, false)); }
+    for (kind, w, h) in [(Kind::Repeat, 256u32, 2u32), (Kind::Repeat, 2, 1024), (Kind::Repeat, 512, 512), (Kind::Clamp, 300, 2), (Kind::Clamp, 3, 257), (Kind::Once, 300, 3), (Kind::Repeat, 131072, 1), (Kind::Repeat, 2, 131072), (Kind::Repeat, 262144, 2), (Kind::Clamp, 70000, 1)] { cases.push((kind, w, h, 0, 0, false, false)); }
     cases.dedup();
     rep.set("texture_cases", cases.len() as u64);
     let nc = cases.len() as u64;
     // owned textures are built once per case
-    let owned: Vec<Option<Texture<Buf2<(u32, u32)>>>> = cases.iter().map(|&(_, w, h, ox, oy, b)| if b { None } else { Some(Texture::from(Buf2::new_with((w, h), |x, y| (x + ox, y + oy)))) }).collect();
+    let owned: Vec<Option<Texture<Buf2<(u32, u32)>>>> = cases.iter().map(|&(_, w, h, ox, oy, b, _)| if b { None } else { Some(Texture::from(Buf2::new_with((w, h), |x, y| (x + ox, y + oy)))) }).collect();
     // full u x v lattice product per case (absolute), and a thinner product for relative entry points
     rep.merge(par_range(&cfg, nc * n * n, |i, r| {
-        let (kind, w, h, ox, oy, borrowed) = cases[(i / (n * n)) as usize];
+        let (kind, w, h, ox, oy, borrowed, nested) = cases[(i / (n * n)) as usize];
         let (u, v) = (lat[(i % n) as usize], lat[(i / n % n) as usize]);
-        let tc = TexCase { w, h, ox, oy, borrowed, parent: &parent, owned: owned[(i / (n * n)) as usize].as_ref() };
+        let tc = TexCase { w, h, ox, oy, borrowed, nested, parent: &parent, owned: owned[(i / (n * n)) as usize].as_ref() };
         sample_one(&tc, kind, false, u, v, r);
         if (i % n + i / n % n) % 3 == 0 || (u.abs() <= 2.0 && v.abs() <= 2.0) { sample_one(&tc, kind, true, u, v, r); }
     }));
@@ -157,6 +162,6 @@ fn main() {
     rep.sample(0, || obj! {"sampler" => "Repeat", "texture" => "4x2 borrowed at (12,14) of 16x16", "uv" => vec![-4.0f32, 2147483520.0]});
     rep.sample(1, || obj! {"sampler" => "Clamp", "texture" => "3x5 owned", "uv" => "NaN, +inf"});
     rep.finish(&cfg, "exploration",
-        "textures: sizes {1,2,4,8,16}^2 (repeat) / {1,2,3,5,8}^2 (clamp, once), owned and borrowed sub-rectangles of a 16x16 parent whose texels encode their own coordinates; per-axis coordinate lattice (every integer k in [-33,33] with k+-ulp and k+1/2, +-2^e with neighbours for e<=31, 2^31-128, -2^31, +-0, subnormals, f32::MAX/MIN, +-inf, NaN, fractions k/8,k/3,k/5) - full u x v product for the absolute entry point and a stated subset for the relative one; thorough adds all 2^32 bit patterns on one axis for six textures. Oracle: floor/mod/clamp in i64/f64; non-finite or |c|>=2^31 => any in-range texel, no panic. non-trivial = coordinate outside [0,size).",
+        "textures: sizes {1,2,4,8,16}^2 (repeat) / {1,2,3,5,8}^2 (clamp, once), owned and borrowed sub-rectangles (one level, and nested inside a 15x15 page) of a 16x16 parent whose texels encode their own coordinates; scale sentinels up to 262144 texels per axis; per-axis coordinate lattice (every integer k in [-33,33] with k+-ulp and k+1/2, +-2^e with neighbours for e<=31, 2^31-128, -2^31, +-0, subnormals, f32::MAX/MIN, +-inf, NaN, fractions k/8,k/3,k/5) - full u x v product for the absolute entry point and a stated subset for the relative one; thorough adds all 2^32 bit patterns on one axis for six textures. Oracle: floor/mod/clamp in i64/f64; non-finite or |c|>=2^31 => any in-range texel, no panic. non-trivial = coordinate outside [0,size).",
         &["relative entry points are compared with the absolute oracle applied to the f32 product size*coordinate", "SamplerOnce is only judged for 0 <= c < size (its documented domain)"]);
 }
